@@ -222,6 +222,7 @@ static void parse_case(char *text)
     memset(&G, 0, sizeof(G));
     G.mask = 7;
     G.drain = 1;
+    G.leakcheck = 1;
     G.main_a.kind = A_MAIN;
     G.main_a.skip_mutex = -1;
     for (int i = 0; i < MAXU; i++) {
@@ -262,6 +263,7 @@ static void parse_case(char *text)
             G.mode = (int)kv(line, "mode", 0);
             G.drain = (int)kv(line, "drain", 1);
             G.tick = (uint64_t)kv(line, "tick", 1);
+            G.leakcheck = (int)kv(line, "leakcheck", 1);
         } else if (!strncmp(line, "env", 3)) {
             char *p = line + 3;
             while (*p == ' ')
@@ -401,6 +403,7 @@ static void parse_case(char *text)
 }
 
 /* ------------------------------------------------------------------ */
+int __lsan_do_recoverable_leak_check(void) __attribute__((weak));
 static void run_case(void)
 {
     for (int i = 0; i < g_nenv; i++)
@@ -428,6 +431,9 @@ static void run_case(void)
     if (!G.native)
         ds_end();
     save_counters();
+    /* the child leaves through _exit(): ask LeakSanitizer explicitly */
+    if (__lsan_do_recoverable_leak_check && G.leakcheck && __lsan_do_recoverable_leak_check())
+        viol("LeakSanitizer: memory allocated during the case was not released by ABT_finalize");
 }
 
 static void sigalrm_parent(int s)
